@@ -120,6 +120,7 @@ func (h *Sources) Add(name string, hist Source) {
 	if len(h.list) == 1 && h.names[0] == defaultSourceName {
 		delete(h.list, defaultSourceName)
 		h.names = make([]string, 0)
+		h.sourcePos = 0
 	}
 
 	h.names = append(h.names, name)
